@@ -8,7 +8,7 @@ import numpy as np
 from simlab import ctx as C, session as S, runner as R, farm
 from simlab.checklib import BaseCheck
 from simlab.prng import Stream, H, run_seed
-from simlab.pairs import first_diff, _fix_spec
+from simlab.pairs import first_diff, _fix_spec, CandleDigestMonitor
 from .common import COMMON_REAL, COMMON_STUB
 
 HOOKS = ('before', 'after', 'update_position', 'on_open_position', 'should_long', 'go_long', 'on_reduced_position', 'on_close_position')
@@ -52,6 +52,12 @@ def earlier_profile(st, probe):
         pf['exchange'] = probe['exchange']
     else:
         pf['exchange'] = st.choice(['Other Exchange', 'Sandbox', 'Bybit USDT Perpetual'], 'name')
+    # the same calendar span as the probe (other prices): anything memoised per (exchange, symbol, timeframe, timestamp)
+    # is then looked up again by the probe
+    if st.chance(0.5, 'same_span'):
+        pf['start_ts'] = probe['start_ts']
+        if probe['warmup'] > 0:
+            pf['p_warmup'] = 0.9
     return pf
 
 
@@ -100,7 +106,7 @@ def run_sequence(arg):
     """executes a list of (spec, label) in THIS process (one child = one history)"""
     specs = arg
     sl = Slice()
-    c = C.RunCtx(specs[0][0], None, [sl])
+    c = C.RunCtx(specs[0][0], None, [sl, CandleDigestMonitor(full_first=True)])
     c.scratch['observe_env'] = True
     C.set_current(c)
     try:
@@ -175,6 +181,8 @@ class HistoryCheck(BaseCheck):
                 cnt['fault_hook_exception'] = cnt.get('fault_hook_exception', 0) + 1
             if s['status'] == 'legal-rejection':
                 cnt['fault_order_rejection'] = cnt.get('fault_order_rejection', 0) + 1
+            if sp['start_ts'] == probe['start_ts']:
+                cnt['skew_same_calendar_span'] = cnt.get('skew_same_calendar_span', 0) + 1
             if sp['exchange'] == probe['exchange']:
                 cnt['skew_same_exchange_name'] = cnt.get('skew_same_exchange_name', 0) + 1
                 if sp['type'] != probe['type']:
@@ -274,10 +282,11 @@ class HistoryCheck(BaseCheck):
 CHECK = HistoryCheck(
     tiers={'quick': 400, 'thorough': 20_000},
     rule=('one seed -> a history executed in ONE forked process: 0-4 earlier research.backtest calls that differ from the probe in '
-          'exchange name (same name in 60%), spot/futures, leverage and mode, fee, balance, symbols, timeframes, data routes, warm-up, '
+          'exchange name (same name in 60%), calendar span (same start as the probe in 50%), spot/futures, leverage and mode, fee, balance, symbols, timeframes, data routes, warm-up, '
           'simulator, hyperparameters and shared_vars traffic - about half of them aborted by an injected fault (exception raised from a '
           'drawn hook at a drawn candle, or a forced order rejection) - then the probe call twice. The probe is also executed in a fresh '
           'forked process without history. Oracle: (1) probe outcome, result dict and full event trace (hooks with balance, margin, hp, '
+          'the candles readable for every symbol and timeframe - whole arrays at the first hook, the last rows at every hook -, '
           'exchange type, leverage, fee rate, shared_vars; orders; fills) after the history == fresh, bit for bit; (2) second call == first; '
           '(3) config, routes, data routes, candle and warm-up arrays, hyperparameters deep-equal to copies taken before the call - '
           'again for every call of the history after the last call has returned; in half of the histories the second probe call is '
@@ -286,6 +295,6 @@ CHECK = HistoryCheck(
     assumptions=['order/trade ids are random uuids in reality and excluded from the comparison (the id counter restarts per session)'],
     real_components=COMMON_REAL + ['process-global state: helpers.CACHED_CONFIG, services.api.api.drivers, config dict, store singleton, lru_caches'],
     stub_components=COMMON_STUB,
-    fault_kinds=['fault_hook_exception', 'fault_order_rejection', 'skew_same_exchange_name', 'skew_other_exchange_name', 'skew_spot_futures_same_name'],
+    fault_kinds=['fault_hook_exception', 'fault_order_rejection', 'skew_same_calendar_span', 'skew_same_exchange_name', 'skew_other_exchange_name', 'skew_spot_futures_same_name'],
     probes=['second_call_reuses_argument_objects', 'earlier_sessions', 'earlier_ok', 'earlier_injected-fault', 'earlier_legal-rejection'],
 )
